@@ -314,6 +314,13 @@ def harnesses(tier):
             hs.append(Harness("qvalues[%s,n=%d]" % (alg, n), cfg, sym_qvalues, real="qvalues", functions=fns, bounds=dict(N=n, bins=2), stubs=CONTRACTS,
                               assumptions=["PEPs handed to qvalues_from_peps satisfy C06 themselves (in [0,1], non-increasing in the score)", "the best-scoring PSM is a target where a count ratio is formed (otherwise numpy yields inf)"],
                               sample_rate=0.02))
+    if tier == "thorough":
+        # (kde_nnls with n=5: z3 answers unknown on the non-linear interpolation queries within 60 s - not included)
+        for name, cfg, fn, real in (("pep[hist_nnls,n=3,bins=3]", dict(n=3, alg="hist_nnls", min_each=1, bins=3, grid=3), sym_pep, "pep"),
+                                    ("pep[kde_nnls,n=4,grid=4]", dict(n=4, alg="kde_nnls", min_each=2, bins=2, grid=4), sym_pep, "pep"),
+                                    ("qvalues[from_counts,n=3,bins=3]", dict(n=3, alg="from_counts", min_each=1, bins=3), sym_qvalues, "qvalues")):
+            hs.append(Harness(name, cfg, fn, real=real, functions=[P.peps_from_scores, Q.qvalues_from_scores], bounds=dict(N=cfg["n"], bins=cfg["bins"], grid=cfg.get("grid")), stubs=CONTRACTS,
+                              assumptions=["as the smaller harnesses of the same kind"], sample_rate=0.01))
     return hs
 
 
@@ -324,30 +331,86 @@ def evidence_extra(tier):
 
 
 # ------------------------------------------------------------------ concrete --
-def _realistic(inp, m=240):
-    """A realistic data set with the ORDER PATTERN and TIE PATTERN of the (tiny) counterexample: the real
-    estimators cannot run on 2-4 PSMs, so the reported input is this data set, not the solver's."""
+def _is_sorted(xs, desc):
+    return all((a >= b) if desc else (a <= b) for a, b in zip(xs, xs[1:]))
+
+
+def _embeddings(inp, every):
+    """The real estimators cannot run on 2-4 PSMs. A counterexample is therefore replayed on larger data
+    sets that mirror its STRUCTURE - order type of the whole input and of the target / decoy
+    subsequences, tie pattern, labels of the best- and worst-scoring PSM - and the reported failing input
+    is that data set, not the solver's. `every`: further arrangements of the same realistic pool (random,
+    sorted either way, each kind sorted separately); only used when a counterexample is being replayed.
+    (A cruder 'one block of PSMs per PSM of the counterexample' data set was tried and removed: fully
+    separated targets and decoys are degenerate for hist_nnls - 0/0 - and gave a false alarm.)"""
     import numpy as np
     sc = [float(x) for x in inp["scores"]]
+    tg = [bool(x) for x in inp["targets"]]
+    n = len(sc)
     rng = np.random.default_rng(12345)
+    m = 240
     t = rng.random(m) < 0.5
-    s = np.where(t, rng.normal(0.0, 1.0, m), rng.normal(0.0, 1.0, m))
+    s = rng.normal(0.0, 1.0, m)
     good = t & (rng.random(m) < 0.45)
     s[good] += 4.0
-    if len(set(sc)) < len(sc):
-        s = np.round(s * 2) / 2  # ties
-    desc = all(a >= b for a, b in zip(sc, sc[1:]))
-    asc = all(a <= b for a, b in zip(sc, sc[1:]))
-    if desc and not asc:
-        o = np.argsort(-s, kind="stable")
-        how = "sorted best first"
-    elif asc and not desc:
-        o = np.argsort(s, kind="stable")
-        how = "sorted worst first"
+    ties = len(set(sc)) < len(sc)
+    if ties:
+        s = np.round(s * 2) / 2
+    # labels of the extremes as in the counterexample
+    best, worst = int(np.argmax(sc)), int(np.argmin(sc))
+    top_unique = sum(1 for x in sc if x == sc[best]) == 1
+    if top_unique:
+        k = int(np.argmax(s))
+        if t[k] != tg[best]:
+            cand = np.flatnonzero(t == tg[best])
+            s[cand[0]] = s.max() + 0.25
+    if sum(1 for x in sc if x == sc[worst]) == 1:
+        k = int(np.argmin(s))
+        if t[k] != tg[worst]:
+            cand = np.flatnonzero(t == tg[worst])
+            s[cand[-1]] = s.min() - 0.25
+    # order type: whole input, target subsequence, decoy subsequence
+    ts = [x for x, l in zip(sc, tg) if l]
+    ds = [x for x, l in zip(sc, tg) if not l]
+    for desc, word in ((True, "best first"), (False, "worst first")):
+        key = -s if desc else s
+        if _is_sorted(sc, desc) and not _is_sorted(sc, not desc):
+            o = np.argsort(key, kind="stable")
+            how = "sorted %s" % word
+            break
+        if len(ts) + len(ds) > 2 and _is_sorted(ts, desc) and _is_sorted(ds, desc) and not _is_sorted(sc, desc) and not _is_sorted(sc, not desc):
+            first_t = tg[0]
+            a = np.flatnonzero(t == first_t)
+            b = np.flatnonzero(t != first_t)
+            o = np.concatenate([a[np.argsort(key[a], kind="stable")], b[np.argsort(key[b], kind="stable")]])
+            how = "%s sorted %s followed by %s sorted %s" % ("targets" if first_t else "decoys", word, "decoys" if first_t else "targets", word)
+            break
     else:
-        o = rng.permutation(m)
-        how = "in random order"
-    return s[o].astype(float), t[o], how
+        if n == 2 and tg[0] != tg[1] and not ties:
+            # two PSMs of different kinds: also 'each kind sorted, the whole not' (both directions coincide)
+            desc = sc[0] < sc[1]  # the whole is ascending: read it as two best-first runs
+            key = -s
+            a = np.flatnonzero(t == tg[0])
+            b = np.flatnonzero(t != tg[0])
+            o = np.concatenate([a[np.argsort(key[a], kind="stable")], b[np.argsort(key[b], kind="stable")]])
+            how = "%s sorted best first followed by %s sorted best first" % ("targets" if tg[0] else "decoys", "decoys" if tg[0] else "targets")
+        else:
+            o = rng.permutation(m)
+            how = "in random order"
+    yield s[o].astype(float), t[o], "240 realistic PSMs " + how
+    if every:
+        o2 = rng.permutation(m)
+        yield s[o2].astype(float), t[o2], "240 realistic PSMs in random order"
+        o3 = np.argsort(s, kind="stable")
+        yield s[o3].astype(float), t[o3], "240 realistic PSMs sorted worst first"
+        o4 = np.argsort(-s, kind="stable")
+        yield s[o4].astype(float), t[o4], "240 realistic PSMs sorted best first"
+        for first_t in (tg[0], not tg[0]):
+            for desc, word in ((True, "best first"), (False, "worst first")):
+                key = -s if desc else s
+                a, b = np.flatnonzero(t == first_t), np.flatnonzero(t != first_t)
+                o5 = np.concatenate([a[np.argsort(key[a], kind="stable")], b[np.argsort(key[b], kind="stable")]])
+                yield s[o5].astype(float), t[o5], "240 realistic PSMs: %s sorted %s followed by %s sorted %s" % ("targets" if first_t else "decoys", word, "decoys" if first_t else "targets", word)
 
 
 def _check_vector(s, out, lo_only, what):
@@ -372,46 +435,42 @@ def _check_vector(s, out, lo_only, what):
     return None
 
 
-def real_pep(cfg, inp):
+def _run(cfg, inp, call, lo_only, what, label):
     import warnings
+    last = dict(outputs=None, violation=None)
+    for s, t, how in _embeddings(inp, bool(cfg.get("_failed"))):
+        with warnings.catch_warnings():
+            warnings.simplefilter("ignore")
+            try:
+                out = call(s.copy(), t.copy())
+            except BaseException as ex:
+                return dict(exception=repr(ex), violation="%s on %s raised %r" % (label, how, ex))
+        v = _check_vector(s, out, lo_only, what)
+        if v:
+            return dict(outputs=None, violation="%s on %s: %s" % (label, how, v))
+    return last
+
+
+def real_pep(cfg, inp):
     import mokapot.peps as P
-    s, t, how = _realistic(inp)
     alg = inp["alg"]
-    with warnings.catch_warnings():
-        warnings.simplefilter("ignore")
-        try:
-            if alg == "kde_nnls":
-                out = P.peps_from_scores_kde_nnls(s.copy(), t.copy())
-            else:
-                out = P.peps_from_scores(s.copy(), t.copy(), alg)
-        except BaseException as ex:
-            return dict(exception=repr(ex), violation="peps_from_scores(%d realistic PSMs %s, %r) raised %r" % (len(s), how, alg, ex))
-    v = _check_vector(s, out, False, "PEP")
-    return dict(outputs=None, violation=("peps_from_scores(%d realistic PSMs %s, %r): " % (len(s), how, alg) + v) if v else None)
+    call = (lambda s, t: P.peps_from_scores_kde_nnls(s, t)) if alg == "kde_nnls" else (lambda s, t: P.peps_from_scores(s, t, alg))
+    return _run(cfg, inp, call, False, "PEP", "peps_from_scores(..., %r)" % alg)
 
 
 def real_qvalues(cfg, inp):
-    import warnings
     import numpy as np
     import mokapot.qvalues as Q
-    s, t, how = _realistic(inp)
     alg = inp["alg"]
-    with warnings.catch_warnings():
-        warnings.simplefilter("ignore")
-        try:
-            if alg == "from_peps":
-                # PEPs that satisfy C06: a decreasing function of the score
-                peps = 1.0 / (1.0 + np.exp(s - 2.0))
-                out = Q.qvalues_from_peps(s.copy(), t.copy(), peps)
-            else:
-                # keep the premise of the symbolic harness: the best-scoring PSM is a target
-                t = t.copy()
-                t[np.argmax(s)] = True
-                out = Q.qvalues_from_scores(s.copy(), t.copy(), alg)
-        except BaseException as ex:
-            return dict(exception=repr(ex), violation="q-values %r on %d realistic PSMs %s raised %r" % (alg, len(s), how, ex))
-    v = _check_vector(s, out, True, "q-value")
-    return dict(outputs=None, violation=("q-values %r on %d realistic PSMs %s: " % (alg, len(s), how) + v) if v else None)
+    if alg == "from_peps":
+        # PEPs that satisfy C06 themselves: a decreasing function of the score
+        call = lambda s, t: Q.qvalues_from_peps(s, t, 1.0 / (1.0 + np.exp(s - 2.0)))
+    else:
+        def call(s, t):
+            t = t.copy()
+            t[np.argmax(s)] = True  # premise of the symbolic harness: the best-scoring PSM is a target
+            return Q.qvalues_from_scores(s, t, alg)
+    return _run(cfg, inp, call, True, "q-value", "q-values %r" % alg)
 
 
 REAL = {"pep": real_pep, "qvalues": real_qvalues}
